@@ -1,13 +1,13 @@
 #!/bin/bash
-# ./sweep.sh <seeds...> — run every registered quick check under the given VERIF_SEEDs and report any
+# [TIER=thorough] ./sweep.sh <seeds...> — run every registered check (default tier quick) under the given VERIF_SEEDs and report any
 # run that exits non-zero on the (supposedly unchanged) tree.
 cd "$(dirname "$0")"
 PROPS=$(python3 -c "import json;print(' '.join(c['property_id'] for c in json.load(open('MANIFEST.json'))['checks']))")
 ./check --setup || exit 2
 for s in "$@"; do
   for p in $PROPS; do
-    out=$(VERIF_SEED=$s ./check $p --tier quick 2>&1); rc=$?
-    line=$(echo "$out" | grep -E "quick:" | tail -1)
+    out=$(VERIF_SEED=$s ./check $p --tier ${TIER:-quick} 2>&1); rc=$?
+    line=$(echo "$out" | grep -E "(quick|thorough):" | tail -1)
     echo "seed=$s $p rc=$rc $line"
     if [ $rc -ne 0 ]; then echo "$out" | grep -E "^violation|VIOLATION|HARNESS" | cut -c1-300; fi
   done
